@@ -41,36 +41,42 @@ var tctx = logtags.AddTag(context.Background(), "k", "v")
 // wrapperNil: every exported constructor that takes an error, called
 // with a nil error. Keys are "<package dir>.<Func>".
 var wrapperNil = map[string]func() error{
-	"errors.Wrap":                                   func() error { return errors.Wrap(nil, "x") },
-	"errors.Wrapf":                                  func() error { return errors.Wrapf(nil, "x %d", 1) },
-	"errors.WrapWithDepth":                          func() error { return errors.WrapWithDepth(1, nil, "x") },
-	"errors.WrapWithDepthf":                         func() error { return errors.WrapWithDepthf(1, nil, "x") },
-	"errors.WithMessage":                            func() error { return errors.WithMessage(nil, "x") },
-	"errors.WithMessagef":                           func() error { return errors.WithMessagef(nil, "x") },
-	"errors.WithStack":                              func() error { return errors.WithStack(nil) },
-	"errors.WithStackDepth":                         func() error { return errors.WithStackDepth(nil, 1) },
-	"errors.WithHint":                               func() error { return errors.WithHint(nil, "x") },
-	"errors.WithHintf":                              func() error { return errors.WithHintf(nil, "x") },
-	"errors.WithDetail":                             func() error { return errors.WithDetail(nil, "x") },
-	"errors.WithDetailf":                            func() error { return errors.WithDetailf(nil, "x") },
-	"errors.WithSafeDetails":                        func() error { return errors.WithSafeDetails(nil, "x") },
-	"errors.WithTelemetry":                          func() error { return errors.WithTelemetry(nil, "x") },
-	"errors.WithDomain":                             func() error { return errors.WithDomain(nil, "x") },
-	"errors.WithIssueLink":                          func() error { return errors.WithIssueLink(nil, errors.IssueLink{}) },
-	"errors.WithContextTags":                        func() error { return errors.WithContextTags(nil, tctx) },
-	"errors.WithAssertionFailure":                   func() error { return errors.WithAssertionFailure(nil) },
-	"errors.Mark":                                   func() error { return errors.Mark(nil, other) },
-	"errors.WithSecondaryError":                     func() error { return errors.WithSecondaryError(nil, other) },
-	"errors.CombineErrors":                          func() error { return errors.CombineErrors(nil, nil) },
-	"errors.Handled":                                func() error { return errors.Handled(nil) },
-	"errors.Opaque":                                 func() error { return errors.Opaque(nil) },
-	"errors.HandledWithMessage":                     func() error { return errors.HandledWithMessage(nil, "x") },
-	"errors.HandledInDomain":                        func() error { return errors.HandledInDomain(nil, "x") },
-	"errors.HandledInDomainWithMessage":             func() error { return errors.HandledInDomainWithMessage(nil, "x", "y") },
-	"errors.HandleAsAssertionFailure":               func() error { return errors.HandleAsAssertionFailure(nil) },
-	"errors.HandleAsAssertionFailureDepth":          func() error { return errors.HandleAsAssertionFailureDepth(1, nil) },
-	"errors.NewAssertionErrorWithWrappedErrf":       func() error { return errors.NewAssertionErrorWithWrappedErrf(nil, "x") },
-	"errors.EnsureNotInDomain":                      func() error { return errors.EnsureNotInDomain(nil, nil, "x") },
+	"errors.Wrap":                             func() error { return errors.Wrap(nil, "x") },
+	"errors.Wrapf":                            func() error { return errors.Wrapf(nil, "x %d", 1) },
+	"errors.WrapWithDepth":                    func() error { return errors.WrapWithDepth(1, nil, "x") },
+	"errors.WrapWithDepthf":                   func() error { return errors.WrapWithDepthf(1, nil, "x") },
+	"errors.WithMessage":                      func() error { return errors.WithMessage(nil, "x") },
+	"errors.WithMessagef":                     func() error { return errors.WithMessagef(nil, "x") },
+	"errors.WithStack":                        func() error { return errors.WithStack(nil) },
+	"errors.WithStackDepth":                   func() error { return errors.WithStackDepth(nil, 1) },
+	"errors.WithHint":                         func() error { return errors.WithHint(nil, "x") },
+	"errors.WithHintf":                        func() error { return errors.WithHintf(nil, "x") },
+	"errors.WithDetail":                       func() error { return errors.WithDetail(nil, "x") },
+	"errors.WithDetailf":                      func() error { return errors.WithDetailf(nil, "x") },
+	"errors.WithSafeDetails":                  func() error { return errors.WithSafeDetails(nil, "x") },
+	"errors.WithTelemetry":                    func() error { return errors.WithTelemetry(nil, "x") },
+	"errors.WithDomain":                       func() error { return errors.WithDomain(nil, "x") },
+	"errors.WithIssueLink":                    func() error { return errors.WithIssueLink(nil, errors.IssueLink{}) },
+	"errors.WithContextTags":                  func() error { return errors.WithContextTags(nil, tctx) },
+	"errors.WithAssertionFailure":             func() error { return errors.WithAssertionFailure(nil) },
+	"errors.Mark":                             func() error { return errors.Mark(nil, other) },
+	"errors.WithSecondaryError":               func() error { return errors.WithSecondaryError(nil, other) },
+	"errors.CombineErrors":                    func() error { return errors.CombineErrors(nil, nil) },
+	"errors.Handled":                          func() error { return errors.Handled(nil) },
+	"errors.Opaque":                           func() error { return errors.Opaque(nil) },
+	"errors.HandledWithMessage":               func() error { return errors.HandledWithMessage(nil, "x") },
+	"errors.HandledInDomain":                  func() error { return errors.HandledInDomain(nil, "x") },
+	"errors.HandledInDomainWithMessage":       func() error { return errors.HandledInDomainWithMessage(nil, "x", "y") },
+	"errors.HandleAsAssertionFailure":         func() error { return errors.HandleAsAssertionFailure(nil) },
+	"errors.HandleAsAssertionFailureDepth":    func() error { return errors.HandleAsAssertionFailureDepth(1, nil) },
+	"errors.NewAssertionErrorWithWrappedErrf": func() error { return errors.NewAssertionErrorWithWrappedErrf(nil, "x") },
+	"errors.EnsureNotInDomain":                func() error { return errors.EnsureNotInDomain(nil, nil, "x") },
+	"errors.EnsureNotInDomain(NoDomain forbidden)": func() error {
+		return errors.EnsureNotInDomain(nil, func(errors.Domain, error) error { return errors.New("constructed for nil") }, domains.NoDomain)
+	},
+	"domains.EnsureNotInDomain(NoDomain forbidden)": func() error {
+		return domains.EnsureNotInDomain(nil, func(domains.Domain, error) error { return errors.New("constructed for nil") }, domains.NoDomain, "x")
+	},
 	"errors.Join":                                   func() error { return errors.Join(nil, nil) },
 	"errors.JoinWithDepth":                          func() error { return errors.JoinWithDepth(1, nil) },
 	"assert.WithAssertionFailure":                   func() error { return assert.WithAssertionFailure(nil) },
